@@ -68,7 +68,7 @@ def gen_case(rnd, idx, forced_ctx=None, forced_root=None, n=None):
         target = 0 if r == 0 else rnd.randrange(n)
         rk = forced_root if (forced_root and r == 0) else rnd.choice(ROOT_KINDS)
         lab, f = forced_ctx if (forced_ctx and r == 0) else rnd.choice(CTX)
-        if rk in ("event-struct-expr",):
+        if rk in ("event-struct-expr", "event-shadowed-let"):
             lab, f = CTX[0]
             if kinds[target] in ("enum", "tuple"):
                 rk = "event-typed-param"
@@ -128,8 +128,8 @@ def gen_case(rnd, idx, forced_ctx=None, forced_root=None, n=None):
             shadow = "ShadowedFirst%d_%d" % (idx, r)
             shadow_decoys.add(shadow)
             cmds.append(rg.struct_src(shadow, [("id", "i32")]) +
-                        "pub fn %s(app: AppHandle) {\n    let v = %s { id: 0 };\n    let _ = &v;\n    let v: %s = todo!();\n    app.emit(\"ev-%s\", &v).unwrap();\n}\n\n" % (
-                            nm, shadow, rs.replace("&", "&'static "), nm))
+                        "pub fn %s(app: AppHandle) {\n    let v = %s { id: 0 };\n    let _ = &v;\n    let v = %s { id: 1 };\n    app.emit(\"ev-%s\", &v).unwrap();\n}\n\n" % (
+                            nm, shadow, names[target], nm))
     if err_only:
         body.setdefault("lib.rs", []).append(rg.struct_src(err_only, [("msg", "String")]))
         if not any(rk == "return-result-ok" for (_, rk, _, _) in roots):
